@@ -45,7 +45,7 @@ import cloudpickle as cp
 from pydra.compose import python, workflow
 import pydra.engine.submitter  # noqa: F401  (must be imported before pydra.workers.base: circular import in pydra)
 from pydra.workers.base import Worker
-from vf.core import CheckerError
+from vf.core import CheckerError, json_safe
 
 FAILFILE_ENV = "VF_SCHED_FAILFILE"
 INF = 10**6
@@ -597,6 +597,10 @@ _PROC = {}
 
 def temp_root():
     """one temp root per check run, created by the parent process (children inherit it by fork)"""
+    inherited = os.environ.get("VF_SCHED_ROOT")
+    if "root" not in _PROC and inherited and os.path.isdir(inherited):
+        _PROC["root"] = Path(inherited)  # a spawned child of the check process; the parent owns and removes it
+        _PROC["owner"] = None
     if "root" not in _PROC:
         import atexit
 
@@ -611,6 +615,7 @@ def temp_root():
 def cleanup():
     if _PROC.get("owner") == os.getpid() and "root" in _PROC:
         shutil.rmtree(_PROC.pop("root"), ignore_errors=True)
+        os.environ.pop("VF_SCHED_ROOT", None)
 
 
 def _proc_root():
@@ -1146,10 +1151,10 @@ def _partition(args):
 
 def _work(args):
     """enumerate one (opts, fixed prefix) task in a worker process; returns a compact summary"""
-    pid, od, fixed, sample_n, seed, fidelity = args
+    pid, od, fixed, sample_n, seed, fidelity, group = args
     opts = opts_from(od)
     spec = CATALOGUE[opts.spec]
-    out = {"opts": od, "fixed": list(fixed), "keys": [], "nontrivial": [], "fails": [], "samples": [], "stats": {}, "fidelity": []}
+    out = {"group": group, "opts": od, "fixed": list(fixed), "keys": [], "nontrivial": [], "fails": [], "samples": [], "stats": {}, "fidelity": []}
     st = out["stats"]
 
     def handle(script, h):
@@ -1196,38 +1201,49 @@ def nprocs():
     return max(2, min(12, (os.cpu_count() or 4) - 2))
 
 
-def run_tasks(ctx, pid, dom, tasks, fidelity=False):
-    """tasks: [(opts, sample_n, split_depth)] -- sample_n = 0: exhaustive enumeration of the choice tree.
-    Feeds `dom`, reports failures through ctx.fail, returns summed stats."""
+def run_domains(ctx, pid, groups):
+    """groups: [(domain, tasks, fidelity)], tasks: [(opts, sample_n, split_depth)] -- sample_n = 0: exhaustive
+    enumeration of the choice tree.  One process pool for the whole check (spawned, not forked: forked children
+    of the pydra-laden parent are several times slower for their first seconds).  Feeds the domains, reports
+    failures through ctx.fail, returns one summed stats dict per group."""
     import multiprocessing as mp
 
-    temp_root()  # created before forking
-    stats = {}
-    mpctx = mp.get_context("fork")
-    with mpctx.Pool(min(nprocs(), max(1, len(tasks)))) as pool:
-        work = []
-        to_split = [(o.asdict(), d) for o, n, d in tasks if d and not n]
+    os.environ["VF_SCHED_ROOT"] = str(temp_root())  # children put their scratch directories below it
+    stats = [dict() for _ in groups]
+    ntasks = sum(len(t) for _, t, _ in groups)
+    with mp.get_context("spawn").Pool(min(nprocs(), max(1, ntasks))) as pool:
+        to_split = [(o.asdict(), d) for _, tasks, _ in groups for o, n, d in tasks if d and not n]
         parts = dict((repr(od), pre) for od, pre in pool.imap_unordered(_partition, to_split, chunksize=1))
-        for o, n, d in tasks:
-            od = o.asdict()
-            for fixed in parts.get(repr(od), [()]):
-                work.append((pid, od, tuple(fixed), n, ctx.seed, fidelity))
+        work = []
+        for gi, (dom, tasks, fidelity) in enumerate(groups):
+            for o, n, d in tasks:
+                od = o.asdict()
+                for fixed in parts.get(repr(od), [()]) if (d and not n) else [()]:
+                    work.append((pid, od, tuple(fixed), n, ctx.seed, fidelity, gi))
+        # big subtrees first
         for out in pool.imap_unordered(_work, work, chunksize=1):
+            dom = groups[out["group"]][0]
+            st = stats[out["group"]]
             for key, nt in zip(out["keys"], out["nontrivial"]):
                 dom.case(key, nontrivial=nt)
+            per = st.setdefault("histories per workflow", {})
+            per[out["opts"]["spec"]] = per.get(out["opts"]["spec"], 0) + len(out["keys"])
             for smp in out["samples"]:
                 if len(dom.samples) < 3:
-                    dom.samples.append(smp)
+                    dom.samples.append(json_safe(smp))
             for kk, vv in out["stats"].items():
-                stats[kk] = stats.get(kk, 0) + vv
+                st[kk] = st.get(kk, 0) + vv
             for f in out["fails"]:
                 ctx.fail(f["class"], f["what"], f["case"], domain=dom)
+            if os.environ.get("VF_SCHED_VERBOSE"):
+                print(f"  [{time.time() - ctx.t0:6.1f}s] {len(out['keys']):6d} histories {out['opts']['spec']} loop={out['opts']['loop']} vis={out['opts']['vis']} k={out['opts']['k']} fail={out['opts']['fail']} multi={out['opts']['multi']} fixed={out['fixed']}", flush=True)
             if out["stats"].get("_unlisted"):
                 ctx.note(f"{out['stats']['_unlisted']} further failing histories of {out['opts']} not listed individually")
                 dom.failed += out["stats"]["_unlisted"]
             if out["fidelity"]:
                 raise CheckerError(f"harness fidelity: synthesised results and real job runs give different histories: {out['fidelity'][0]}")
-    stats.pop("_unlisted", None)
+    for st in stats:
+        st.pop("_unlisted", None)
     return stats
 
 
@@ -1344,10 +1360,10 @@ def e2e(cfg, timeout=120):
 def e2e_c14():
     """the C14 function-level finding in real runs: node a fails after it was seen running while the independent
     chain b -> c -> d is half way; the property demands that d still runs"""
-    nodes = ["a@1.5", "b", "c<b@4.0", "d<c"]
+    nodes = ["a@4.0", "b", "c<b@9.0", "d<c"]
     lines = []
     for title, sub, fail in [
-        ("cf worker n_procs=2, a fails at 1.5 s while c (independent) is running", {"worker": "cf", "n_procs": 2}, ["100<>"]),
+        ("cf worker n_procs=2, a fails after 4 s while c (independent, 9 s) is running", {"worker": "cf", "n_procs": 2}, ["100<>"]),
         ("cf worker n_procs=2, nothing fails", {"worker": "cf", "n_procs": 2}, []),
         ("debug worker, a fails (sequential loop: the first failure ends the run by design)", {"worker": "debug"}, ["100<>"]),
     ]:
@@ -1361,10 +1377,10 @@ def e2e_c14():
 
 
 def e2e_c16():
-    nodes = ["a@0.5", "b@4.0", "c@2.5", "d@2.5"]
+    nodes = ["a@2.0", "b@9.0", "c@5.0", "d@5.0"]
     lines = []
     for title, sub in [
-        ("cf worker n_procs=4 max_concurrent=2, four independent jobs a(0.5s) b(4s) c(2.5s) d(2.5s)", {"worker": "cf", "n_procs": 4, "max_concurrent": 2}),
+        ("cf worker n_procs=4 max_concurrent=2, four independent jobs a(2s) b(9s) c(5s) d(5s)", {"worker": "cf", "n_procs": 4, "max_concurrent": 2}),
         ("debug worker max_concurrent=2, same workflow", {"worker": "debug", "max_concurrent": 2}),
     ]:
         r = e2e({"name": "e2e16", "nodes": nodes, "submitter": sub})
